@@ -117,7 +117,8 @@ static void nni_aio_expire_rm(nni_aio *);
 typedef struct {
 	uint32_t seq;
 	uint8_t  kind;
-	uint8_t  stop, abort, expiring, expire_ok, sleep, cancel, on_eq, use_expire;
+	uint8_t  stop, abort, expiring, expire_ok, sleep, cancel, on_eq, use_expire,
+	    done;
 	int32_t  result;
 	int32_t  arg;
 	void    *aio;
@@ -167,6 +168,7 @@ nni_verif_rec_aio(int kind, nni_aio *aio, int arg)
 	r->cancel        = aio->a_cancel_fn != NULL;
 	r->on_eq         = nni_list_node_active(&aio->a_expire_node);
 	r->use_expire    = aio->a_use_expire;
+	r->done          = aio->a_done;
 	r->result        = (int32_t) aio->a_result;
 	r->arg           = arg;
 	r->aio           = aio;
@@ -184,7 +186,7 @@ nng_verif_trace_start(void)
 // stops tracing; calls cb for each record in order; returns the count
 int
 nng_verif_trace_stop(void (*cb)(unsigned seq, int kind, void *aio,
-    const unsigned char *flags8, int result, int arg))
+    const unsigned char *flags9, int result, int arg))
 {
 	nni_atomic_set_bool(&nni_verif_trace_on, false);
 	int n = nni_atomic_get(&nni_verif_trace_n);
